@@ -1056,7 +1056,14 @@ func (x *Exec) evalCall(st *State, fr *Frame, e ECall, sc *scope) (Val, error) {
 					n += v
 				}
 			}
-			return Val{T: IntLit(int64(n))}, nil
+			t := IntLit(int64(n))
+			// calls made in loop iterations that were cut away: one symbol per callee
+			for _, k := range sortedKeys(st.callSyms) {
+				if matchCallee(lit.V, k) {
+					t = App(SInt, "+", t, st.callSyms[k])
+				}
+			}
+			return Val{T: t}, nil
 		}
 		return Val{}, fmt.Errorf("ncalls needs a string literal")
 	case "strofbytes":
